@@ -46,6 +46,13 @@
               "nest"  every attribute whose type is (one value of) another result type is required: the service may
                       leave it out, and a response without it is invalid under every view that lists it
 
+   Methods: every variant has the method `any` (the service method names the view); the variants with views fixed in the
+   design also have one method per view fixing it - ALL in one service and returning the same result type, so that the view
+   disciplines meet: each method must behave as if it were alone.  For G1, G2, G3 in their [first, base] variant the
+   declaration order of the three disciplines (dynamic, fixed default, fixed tiny) is a further dimension `mo` (all six
+   orders; a fixed ext comes last).  Whatever view name the service code might hand back from a method whose view is
+   fixed in the design is ignored (`chosen` of such a case: a decoy).
+
    Values: which attributes the service set (required primitives always: a Go service cannot leave them out), and
    `bad`: at most one validated attribute carrying a value that breaks its validation.
 *)
@@ -130,7 +137,12 @@ ValueBase(g) ==
 ---------------------------------------------------------------------------
 \* variants
 ASSUME ReqModes \subseteq Reqs /\ AllFixed \in BOOLEAN
-Variants == {k \in [g: Graphs, order: Orders, req: ReqModes] : k.g = "G4" => k.order = "first" /\ k.req = "base"}
+\* declaration orders of the three view disciplines ("-": the service method names the view)
+Perms == << <<"-", "default", "tiny">>, <<"-", "tiny", "default">>, <<"default", "-", "tiny">>,
+            <<"default", "tiny", "-">>, <<"tiny", "-", "default">>, <<"tiny", "default", "-">> >>
+Variants == {k \in [g: Graphs, order: Orders, req: ReqModes, mo: DOMAIN Perms] :
+               /\ k.g = "G4" => k.order = "first" /\ k.req = "base"
+               /\ k.mo # 1 => k.g \in {"G1", "G2", "G3"} /\ k.order = "first" /\ k.req = "base"}
 Extra(t) == IF t = "T" THEN "e" ELSE "z"
 Attrs(k, t) == IF k.req = "oth" THEN Append(BaseAttrs(k.g, t), P(Extra(t))) ELSE BaseAttrs(k.g, t)
 AttrOf(k, t, a) == CHOOSE x \in Range(Attrs(k, t)) : x.attr = a
@@ -143,6 +155,9 @@ DeclViews(k, t) ==
   IN CASE k.order = "first" -> df \o nd [] k.order = "last" -> nd \o df [] OTHER -> nd
 ViewsOf(k) == {v.name : v \in Range(DeclViews(k, "T"))} \cup {"default"}
 FixedViews(k) == IF AllFixed \/ (k.order = "first" /\ k.req = "base") THEN ViewsOf(k) ELSE {}
+\* the methods of the variant's service in declaration order, each by the view it fixes ("-": none)
+Methods(k) == IF FixedViews(k) = {} THEN <<"-">>
+              ELSE SelectSeq(Perms[k.mo], LAMBDA m : m = "-" \/ m \in FixedViews(k)) \o (IF "ext" \in FixedViews(k) THEN <<"ext">> ELSE <<>>)
 OwnView(a) == IF a.own = "-" THEN "default" ELSE a.own
 \* the entries of view v of type t with every nested rendering resolved to <<type, view>>
 ViewTable(k, t, v) ==
@@ -202,21 +217,21 @@ Derefs(k, t, keys, prefix, depth) ==
        \/ p \in keys /\ Derefs(k, a.typ, keys, p, depth - 1)
 
 ---------------------------------------------------------------------------
-VARIABLES cfg,      \* [g, order, req: the variant; fixed: view name fixed in the design or "-"; chosen: view the service method names ("" = default)]
+VARIABLES cfg,      \* [g, order, req, mo: the variant; fixed: view name fixed in the design or "-"; chosen: view the service method names ("" = default)]
           val,      \* set of attribute paths the service set
           bad,      \* subset of val: attributes whose value breaks their validation
           pc, sres, wireKeys, viewHeader, clientKeys, cerr
 vars == <<cfg, val, bad, pc, sres, wireKeys, viewHeader, clientKeys, cerr>>
 
-K == [g |-> cfg.g, order |-> cfg.order, req |-> cfg.req]
+K == [g |-> cfg.g, order |-> cfg.order, req |-> cfg.req, mo |-> cfg.mo]
 EffView == IF cfg.fixed # "-" THEN cfg.fixed ELSE IF cfg.chosen = "" THEN "default" ELSE cfg.chosen
 Expected == Proj(K, "T", EffView, val, "", 4)
 ValidServed == Valid(K, "T", EffView, Expected, bad, "", 4, TRUE)
 
 Init ==
   /\ \E k \in Variants :
-       cfg \in {c \in [g: {k.g}, order: {k.order}, req: {k.req}, fixed: {"-"} \cup FixedViews(k), chosen: {"", "bogus"} \cup ViewsOf(k)] :
-                  c.fixed # "-" => c.chosen = ""}
+       cfg \in {c \in [g: {k.g}, order: {k.order}, req: {k.req}, mo: {k.mo}, fixed: {"-"} \cup FixedViews(k), chosen: {"", "bogus"} \cup ViewsOf(k)] :
+                  c.fixed # "-" => c.chosen \notin {"bogus", c.fixed}}
   /\ val \in ValueSpace(K)
   /\ bad \in BadSpace(K, val)
   /\ cfg.chosen = "bogus" => bad = {}
